@@ -53,6 +53,11 @@ pub enum OrderKind {
     /// arrived and the orphan clean-up timer (hook H3b: 100 ms period) has fired several times
     /// while its descendants wait in the orphan pool
     OrphansAcrossCleanTimer,
+    /// generation order, one submitter; for one block P that becomes the new tip the verify thread
+    /// is parked (logical gate) between the database commit of P and the publication of the new
+    /// snapshot, P's child (the next block of the order) is delivered and handled by the chain
+    /// service inside that window, then the verify thread is released
+    ChildInCommitWindow,
 }
 
 #[derive(Clone)]
@@ -113,7 +118,7 @@ pub fn run(args: &Args) -> i32 {
     };
     let mut rng = Rng::new(args.seed);
     let n_trees = args.get_u64("trees", args.tier.pick(10, 120));
-    let n_orders = args.get_u64("orders", args.tier.pick(7, 12));
+    let n_orders = args.get_u64("orders", args.tier.pick(8, 12));
     let deadline = Instant::now() + Duration::from_secs(args.get_u64("budget_s", args.tier.pick(70, 900)));
     for ti in 0..n_trees {
         if Instant::now() > deadline {
@@ -167,7 +172,8 @@ pub fn run(args: &Args) -> i32 {
                 4 => OrderKind::InOrderInvalidTwice,
                 5 => OrderKind::SwitchBack,
                 6 => OrderKind::OrphansAcrossCleanTimer,
-                7 => OrderKind::InvalidDupLagged,
+                7 => OrderKind::ChildInCommitWindow,
+                8 => OrderKind::InvalidDupLagged,
                 _ => {
                     if trng.bool() {
                         OrderKind::Random
@@ -176,7 +182,7 @@ pub fn run(args: &Args) -> i32 {
                     }
                 }
             };
-            let threads = if oi < 2 || (4..=7).contains(&oi) { 1 } else { 1 + trng.usize_below(4) };
+            let threads = if oi < 2 || (4..=8).contains(&oi) { 1 } else { 1 + trng.usize_below(4) };
             let readers = if oi == 0 { 0 } else { trng.usize_below(3) };
             let with_plan = oi >= 2;
             deliver_and_check(&tg, &gi, &kind, threads, readers, with_plan, &mut trng, shape, &mut r);
@@ -211,6 +217,9 @@ pub fn run(args: &Args) -> i32 {
     }
     if n_orders > 6 && FIXED_ORDER.with(|f| f.borrow().is_none()) {
         r.c01.require("order.OrphansAcrossCleanTimer.realised", 1);
+    }
+    if n_orders > 7 && FIXED_ORDER.with(|f| f.borrow().is_none()) {
+        r.c01.require("order.ChildInCommitWindow.realised", 1);
     }
     r.c01.require("obs.orphaned_deliveries", 1);
     r.c01.require("hook.chain::after_store_snapshot", 1);
@@ -341,7 +350,7 @@ fn check_view(
 fn make_order(tg: &TreeGen, kind: &OrderKind, rng: &mut Rng) -> Vec<H> {
     let mut v: Vec<H> = tg.order.clone();
     match kind {
-        OrderKind::InOrder => {}
+        OrderKind::InOrder | OrderKind::ChildInCommitWindow => {}
         OrderKind::Reverse => v.reverse(),
         OrderKind::Random => rng.shuffle(&mut v),
         OrderKind::ChildBeforeParent => {
@@ -516,6 +525,27 @@ fn deliver_and_check(
         unsafe { std::env::remove_var("VERIF_ORPHAN_CLEAN_MS") };
     }
     let pause_before: Option<H> = if across_timer { order.last().cloned() } else { None };
+    // ChildInCommitWindow: P = a valid block whose successor in the order is its valid child and
+    // which is the heaviest block delivered so far when it arrives (so its import publishes a tip)
+    let window_at: Option<usize> = if matches!(kind, OrderKind::ChildInCommitWindow) {
+        let mut cands = vec![];
+        let mut best_td: Option<ckb_types::U256> = None;
+        for i in 0..order.len().saturating_sub(1) {
+            let rec = rc.get(&order[i]);
+            let heaviest = best_td.as_ref().map(|t| rec.td > *t).unwrap_or(true);
+            if heaviest && rec.chain_valid {
+                best_td = Some(rec.td.clone());
+            }
+            let next = rc.get(&order[i + 1]);
+            if i >= 1 && heaviest && rec.chain_valid && next.chain_valid && next.parent == order[i] {
+                cands.push(i);
+            }
+        }
+        if cands.is_empty() { None } else { Some(cands[rng.usize_below(cands.len())]) }
+    } else {
+        None
+    };
+    let window_realised = AtomicBool::new(false);
     hooks::observe(Some(node.shared.clone()));
     hooks::set_plan(if matches!(kind, OrderKind::InvalidDupLagged) {
         let mut points = std::collections::BTreeMap::new();
@@ -605,10 +635,27 @@ fn deliver_and_check(
         for chunk in chunks {
             let node = &node;
             let callbacks = Arc::clone(&callbacks);
+            let window_realised = &window_realised;
             handles.push(s.spawn(move || {
-                for x in chunk {
+                for (pos, x) in chunk.into_iter().enumerate() {
                     if Some(x) == pause_before {
                         std::thread::sleep(Duration::from_millis(700));
+                    }
+                    if window_at == Some(pos) {
+                        // let everything delivered so far drain, then arm the gate for P
+                        let t0 = Instant::now();
+                        while callbacks.lock().unwrap().len() < pos && t0.elapsed() < Duration::from_secs(20) {
+                            std::thread::sleep(Duration::from_millis(1));
+                        }
+                        hooks::arm_gate("chain::between_commit_and_store_snapshot");
+                    }
+                    if window_at.map(|w| w + 2) == Some(pos) {
+                        // P's child has been handed over; give the chain service thread time to
+                        // deal with it (an injected delay, not a verdict), then let P be published
+                        std::thread::sleep(Duration::from_millis(40));
+                        if hooks::release_gate() {
+                            window_realised.store(true, Ordering::SeqCst);
+                        }
                     }
                     let block: Arc<BlockView> = Arc::clone(&rc.get(&x).block);
                     let cbs = Arc::clone(&callbacks);
@@ -622,11 +669,26 @@ fn deliver_and_check(
                             cbs.lock().unwrap().push(cb);
                         }),
                     });
+                    if window_at == Some(pos) {
+                        // P is delivered: wait until the verify thread is parked behind its commit
+                        let _ = hooks::wait_gate_held(Duration::from_secs(10));
+                    }
+                }
+                if window_at.is_some() && hooks::gate_is_holding() {
+                    // P's child was the last block of the order
+                    std::thread::sleep(Duration::from_millis(40));
+                    if hooks::release_gate() {
+                        window_realised.store(true, Ordering::SeqCst);
+                    }
                 }
             }));
         }
         for hdl in handles {
             let _ = hdl.join();
+        }
+        let _ = hooks::release_gate();
+        if window_realised.load(Ordering::SeqCst) {
+            r.c01.count("order.ChildInCommitWindow.realised");
         }
         // logical quiescence: FIFO flush through chain-service / preload / verify threads by
         // re-delivering an already delivered valid block (a legal duplicate) until the number
